@@ -113,6 +113,26 @@ ACCEPTS = [None, 'application/json', 'application/xml', 'text/xml', '*/*', 'text
            'application/x-custom;q=0.9, application/json;q=0.1', 'text/html, application/xml;q=0.5']
 
 
+class _StaleStream(object):
+    """A response stream attached before the error was raised."""
+
+    def __init__(self):
+        self.chunks = [b'stale ', b'stream']
+
+    def __iter__(self):
+        return self
+
+    def __next__(self):
+        if not self.chunks:
+            raise StopIteration
+        return self.chunks.pop(0)
+
+
+async def _stale_agen():
+    yield b'stale '
+    yield b'stream'
+
+
 class CustomHandler(falcon.media.BaseHandler):
     def serialize(self, media, content_type=None):
         return ('CUSTOM:' + json.dumps(media, sort_keys=True)).encode()
@@ -215,6 +235,8 @@ def run(ctx):
                          'pre_request')
     unreadable = ch.draw(3, 'unreadable_body') == 2
     hostile = ch.draw(4, 'hostile_str') == 3
+    stale_kind = ch.draw(3, 'stale_kind')
+    stale_stream = ch.draw(4, 'stale_stream') == 3
     fam_of = {n: f for n, _b, f in spec}
     fam_of.update({'HTTPError': 'http', 'HTTPNotFound': 'http', 'HTTPStatus': 'status', 'ValueError': 'app'})
     for b in BUILTIN:
@@ -257,7 +279,8 @@ def run(ctx):
                 'raise_site': raise_site, 'err': err_args, 'status': st_args, 'accept': accept,
                 'xml': xml_on, 'custom_media': custom_on, 'asgi': asgi, 'stack': plan,
                 'render_kind': render_kind, 'pre_vary': pre_vary, 'hostile_str': hostile,
-                'pre_request': pre_kind, 'unreadable_body': unreadable}
+                'pre_request': pre_kind, 'unreadable_body': unreadable, 'stale_kind': stale_kind,
+                'stale_stream': stale_stream}
     ctx.plan_key = json.dumps(ctx.plan, sort_keys=True, default=repr)
 
     calls = []          # (handler idx, class name of ex, text/data/media at entry)
@@ -282,9 +305,19 @@ def run(ctx):
 
         def go(req, resp):
             # leave something behind that the framework must discard
-            resp.text = 'stale text'
-            resp.data = b'stale data'
-            resp.media = {'stale': True}
+            if stale_kind == 0:
+                resp.text = 'stale text'
+                resp.data = b'stale data'
+                resp.media = {'stale': True}
+            elif stale_kind == 1:
+                # media only, and already rendered once (an ETag/digest step would do that)
+                resp.media = {'stale': 'rendered'}
+                if not asgi:
+                    resp.render_body()
+            else:
+                resp.data = b'stale data'
+            if stale_stream:
+                resp.stream = _StaleStream() if not asgi else _stale_agen()
             if pre_vary:
                 resp.set_header('Vary', pre_vary)
             raised['site'] = site
@@ -531,7 +564,9 @@ def run(ctx):
                 ctx.violate('errors.rendering.headers', 'HTTPStatus header %r missing' % (n,), **sig)
         bodiless = status in (204, 304) or 100 <= status < 200
         want_body = b'' if bodiless or sa['text'] is None else sa['text'].encode()
-        if body != want_body:
+        if stale_stream and want_body == b'' and body == b'stale stream':
+            pass      # the statement discards text/data/media only; a stream set earlier is not covered
+        elif body != want_body:
             ctx.violate(body_oracle, 'HTTPStatus text %r rendered as %r' % (sa['text'], body), kind='status_text', **sig)
         return
     ea = want[1]
@@ -564,6 +599,8 @@ def run(ctx):
     ctype = [v for n, v in hl if n == 'content-type']
     if fmt is None:
         ctx.probe('no_body_negotiated')
+        if stale_stream and body == b'stale stream':
+            return    # see above: an earlier stream is outside the reset clause
         if body != b'':
             ctx.violate(body_oracle, 'client accepts %r: expected no body, got %r' % (accept, body[:80]),
                         kind='unexpected_body', **sig)
